@@ -28,7 +28,13 @@ var safeTags = []string{"H", "S", "Y", "E", "U", "R", "I"}
 
 // randLeaf: a string, a safe-typed value, or (rarely) int/bool/nil/pointer
 func (c *Ctx) randLeaf() *Val {
-	switch r := c.rng.Intn(20); {
+	switch r := c.rng.Intn(23); {
+	case r >= 22:
+		return &Val{Kind: "N"}
+	case r >= 21:
+		return &Val{Kind: "p", P: &Val{Kind: "g", S: nonEmpty(c.hostile())}}
+	case r >= 20:
+		return &Val{Kind: "g", S: nonEmpty(c.hostile())}
 	case r < 11:
 		return &Val{Kind: "s", S: c.hostile()}
 	case r < 15:
@@ -44,6 +50,13 @@ func (c *Ctx) randLeaf() *Val {
 	default:
 		return &Val{Kind: "p", P: &Val{Kind: "s", S: c.hostile()}}
 	}
+}
+
+func nonEmpty(s string) string {
+	if s == "" {
+		return "<i>"
+	}
+	return s
 }
 
 // randData: the root map every generated template can be executed with
